@@ -234,3 +234,76 @@ def _anc(n: ast.AST, stop: ast.AST):
     while p is not None and p is not stop:
         yield p
         p = parent(p)
+
+
+def overlap_keeps_sign(prog: Program) -> List[Instance]:
+    """C10/C03: box_overlap hands compute_axis_overlap the *signed* per-axis scale of the pixel-to-pixel
+    affine; the sign is how mirrored grids are recognised. Scales obtained through a magnitude helper
+    (get_scale_from_linear_transform returns absolute values) lose it."""
+    f = prog.func("overlap:box_overlap")
+    org = Origins(f)
+    out: List[Instance] = []
+    for n in walk_own(f.node):
+        if isinstance(n, ast.Call) and call_name(n) == "compute_axis_overlap" and len(n.args) >= 3:
+            sc = n.args[2]
+            defs = [sc] + [v for nm in names_in(sc) for _, v in org.defs.get(nm, [])]
+            via_mag = any(isinstance(c, ast.Call) and (call_name(c) in ("abs", "fabs") or "get_scale" in (call_name(c) or "")) for d in defs for c in ast.walk(d))
+            out.append(Instance("R-SIGNROLE", f"{f.qual}#signed-scale:{short(sc)}", BAD if via_mag else OK,
+                                f"scale `{short(sc)}` reaches compute_axis_overlap through a magnitude (abs / get_scale_*): mirrored grids are planned as if they were not mirrored" if via_mag
+                                else f"scale `{short(sc)}` is the signed component of the affine", f.where(n)))
+    return out
+
+
+def variable_locate_searches(prog: Program) -> List[Instance]:
+    """C04/C13: a variable-sized tiling has no single tile size: locate() finds the tile by searching the
+    cumulative offsets. Dividing the pixel by one chunk's size (a 'regular chunking' shortcut) is wrong as soon
+    as any chunk - the last one included - differs."""
+    f = prog.func("roi:VariableSizedTiles.locate")
+    divs = [n for n in walk_own(f.node) if isinstance(n, ast.BinOp) and isinstance(n.op, (ast.FloorDiv, ast.Div))]
+    search = any(isinstance(n, ast.Call) and call_name(n) in ("searchsorted", "bisect", "bisect_right", "bisect_left", "digitize") for n in walk_own(f.node))
+    ok = search and not divs
+    return [Instance("R-GUARDSEQ", f"{f.qual}#search-offsets", OK if ok else BAD,
+                     "tile found by searching the cumulative offsets on every path" if ok else
+                     (f"`{short(divs[0], 40)}` locates a tile by dividing by one chunk size: for chunks like (4, 4, 6) pixel 12 lands in a tile that does not exist" if divs else "no search over the offsets"), f.where(divs[0]) if divs else f.where())]
+
+
+SIGN_PRESERVING = ("math:snap_scale", "math:maybe_int", "math:maybe_zero")
+
+
+def sign_preserving_returns(prog: Program) -> List[Instance]:
+    """C20: snap_scale / maybe_int / maybe_zero return their argument or a snapped version of it - with its
+    sign. Every return value must depend on the parameter along a path that does not go through abs(): a
+    value rebuilt from the magnitude alone (1 / n with n from abs(s)) un-mirrors negative scales."""
+    out: List[Instance] = []
+    for q in SIGN_PRESERVING:
+        f = prog.maybe_func(q)
+        if f is None:
+            continue
+        p0 = f.param_names()[0]
+        org = Origins(f)
+
+        def signed(e: ast.AST, seen: Set[str]) -> bool:
+            """does `e` depend on p0 without passing through abs()?"""
+            stack = [e]
+            while stack:
+                x = stack.pop()
+                if isinstance(x, ast.Call) and call_name(x) in ("abs", "fabs"):
+                    continue
+                if isinstance(x, ast.Name):
+                    if x.id == p0:
+                        return True
+                    if x.id not in seen:
+                        seen.add(x.id)
+                        for _, v in org.defs.get(x.id, []):
+                            if signed(v, seen):
+                                return True
+                    continue
+                stack.extend(ast.iter_child_nodes(x))
+            return False
+
+        for k, r in enumerate(n for n in walk_own(f.node) if isinstance(n, ast.Return) and n.value is not None):
+            ok = signed(r.value, set()) or any(isinstance(c, ast.Call) and call_name(c) == "copysign" for c in ast.walk(r.value)) or const_num(r.value) == 0
+            out.append(Instance("R-SIGNROLE", f"{f.qual}#sign-kept:{k}", OK if ok else BAD,
+                                f"`{short(r)}` carries the sign of `{p0}`" if ok else
+                                f"`{short(r)}` depends on `{p0}` only through abs(): a negative argument comes back positive (snap_scale(-0.5) == +0.5 un-mirrors a flipped transform)", f.where(r)))
+    return out
